@@ -134,7 +134,7 @@ def probe_followed(candidates):
                     e.attributes[(ns, local)] = value
                 if side == 'body':
                     d.text.addElement(e, check_grammar=False)
-                    kept = d._used_auto_styles([d.styles, d.automaticstyles, d.body])
+                    kept = d._used_auto_styles([d.styles, d.body])
                 else:
                     d.masterstyles.addElement(e, check_grammar=False)
                     kept = d._used_auto_styles([d.masterstyles])
